@@ -67,8 +67,10 @@ def coqdimv(d, I):
 
 
 # ------------------------------------------------------------------ observation
-def obs_dim(d):
+def obs_dim(d, file=False):
     try:
+        if not file and any(isinstance(x, (bytes, np.bytes_)) for x in list(d)):
+            return ['bytes', [lit(x)[1] for x in list(d)]]
         xs = [lit(x) for x in list(d)]
     except Exception as e:
         return ['bad', repr(d)[:50]]
@@ -101,7 +103,7 @@ def obs_file(path, group):
             if nm == '_labels_' and 'units' not in d.attrs:
                 labels = [x.decode('utf-8') for x in d[:]]
             else:
-                dims.append(obs_dim(d[:]))
+                dims.append(obs_dim(d[:], file=True))
                 units.append(str(d.attrs.get('units')))
                 names.append(str(nm))
             n += 1
@@ -116,6 +118,8 @@ def mk_dimarg(spec):
         return None
     if spec[0] == 'num':
         return unlit(spec[1])
+    if spec[0] == 'strs':
+        return list(spec[1])
     vals = [unlit(x) for x in spec[1]]
     if spec[0] == 'arr':
         return np.array(vals)
@@ -174,9 +178,12 @@ def mk_data(shape, dtype, layout, seed):
 
 def rand_dimspec(rng, n, allow_bad=False):
     k = rng.choice(['none', 'none', 'int', 'float', 'pair_i', 'pair_f', 'pair_mixed', 'full_lin_i', 'full_lin_f', 'full_nonlin',
-                    'near_lin', 'decr', 'arr_pair', 'arr_full', 'const', 'tuple'])
+                    'near_lin', 'decr', 'arr_pair', 'arr_full', 'const', 'tuple', 'strs'])
     if k == 'none':
         return None
+    if k == 'strs':       # string dim vectors: full length (documented), sometimes a wrong length
+        m = n if rng.random() < 0.85 else rng.choice([1, 2, n + 1])
+        return ['strs', [rng.choice(['a', 'b', 'é', 'x y', 'left', '']) + str(i) for i in range(m)]]
     if k == 'int':
         return ['num', lit(rng.choice(IPOOL[1:]))]
     if k == 'float':
